@@ -181,7 +181,21 @@ def learn_once(cfg, ch):
 
     o = SupervisedOPF("euclidean")
     err = None
-    with own_rng(ch), seams.patched(SupervisedOPF, "fit", fit), seams.patched(g, "opf_accuracy", acc):
+    orig_predict = SupervisedOPF.predict
+
+    def predict(self, X, *more, **kw):
+        # the accuracy of an iteration is also measured here, independently of whether (and how) the
+        # training loop evaluates it: the predictions it asked for against the current validation labels
+        out = orig_predict(self, X, *more, **kw)
+        try:
+            if rec and len(out) == len(Yv):
+                rec[-1]["acc_indep"] = float(orig_acc(Yv.copy(), [int(v) for v in out]))
+        except Exception:
+            pass
+        return out
+
+    with own_rng(ch), seams.patched(SupervisedOPF, "fit", fit), seams.patched(g, "opf_accuracy", acc), \
+            seams.patched(SupervisedOPF, "predict", predict):
         try:
             o.learn(Xt, Yt, Xv, Yv, n_iterations=cfg["iters"])
         except Horizon:
@@ -210,8 +224,12 @@ def learn_once(cfg, ch):
         return ("the multiset of (features, label) pairs over training+validation changed: lost %s, "
                 "gained %s" % (dict(lost), dict(dup)), "samples not conserved"), info
     accs = [r["acc"] for r in rec]
+    if any(a is None for a in accs):
+        # the loop did not go through the intercepted accuracy routine: judge it on the accuracies
+        # measured independently from its predictions
+        accs = [r.get("acc_indep") for r in rec]
     if not rec or any(a is None for a in accs):
-        return ("an iteration ran without an accuracy evaluation", "no accuracy"), info
+        return ("an iteration ran without any prediction of the validation set", "no accuracy"), info
     mx = max(accs)
     if o.subgraph is None:
         return ("no model left in the object", "no model"), info
